@@ -16,7 +16,7 @@
    hoisted environment is inside the static hypotheses of the round-trip theorem (env_static_b). *)
 From Coq Require Import String List NArith ZArith Bool.
 From J5V.lib Require Import Json.
-From J5V.model Require Import CodecTypes.
+From J5V.model Require Import CodecTypes CodecEnc.
 Import ListNotations.
 Local Open Scope N_scope.
 Local Open Scope bool_scope.
@@ -74,3 +74,57 @@ Definition hoist_env (e : env) : env :=
 (* the environment has the shape at all *)
 Definition env_shared_holder_b (e : env) : bool :=
   existsb (fun ns => match snd ns with SObject ps => existsb (shared_holder_b ps) ps | _ => false end) e.
+
+(* ---------------------------------------------------------------- holders have members
+   On which messages does the hoisted view describe the codec?  Exactly (checked per case by CRound,
+   both directions) on those in which every EXISTING holder of a shared-holder oneof has a populated
+   member of that oneof, at every level (objects, oneof members, array items, map values; Any payloads
+   belong to another environment).  Fuel: as the encoder's, 4 per message level. *)
+Definition has_walk (path : list N) (m : msg) : bool := match walk path m with Some _ => true | None => false end.
+
+Fixpoint hm_value (e : env) (fuel : nat) (t : field_ty) (v : pval) {struct fuel} : bool :=
+  match fuel with
+  | O => false
+  | S f =>
+    match t, v with
+    | FObject r, VMsg m => match lookup e r with Some (SObject ps) => hm_props e f ps m | _ => true end
+    | FOneof r, VMsg m => match lookup e r with Some (SOneof ps) => hm_props e f ps m | _ => true end
+    | FArray it, VList l => forallb (hm_value e f it) l
+    | FMap it, VMap es => forallb (fun kv => hm_value e f it (snd kv)) es
+    | _, _ => true
+    end
+  end
+with hm_props (e : env) (fuel : nat) (ps : list property) (m : msg) {struct fuel} : bool :=
+  match fuel with
+  | O => false
+  | S f =>
+    forallb (fun p =>
+      match p_path p with
+      | [] => match p_ty p with
+              | FOneof r => match lookup e r with Some (SOneof qs) => hm_props e f qs m | _ => true end
+              | _ => true
+              end
+      | path =>
+          match walk path m with
+          | None => true
+          | Some v =>
+              (if shared_holder_b ps p then
+                 match p_ty p, v with
+                 | FOneof r, VMsg child =>
+                     match lookup e r with
+                     | Some (SOneof qs) => existsb (fun q => has_walk (p_path q) child) qs
+                     | _ => true
+                     end
+                 | _, _ => true
+                 end
+               else true) && hm_value e f (p_ty p) v
+          end
+      end) ps
+  end.
+
+Definition holders_have_members_b (e : env) (root : bytes) (m : msg) : bool :=
+  match lookup e root with
+  | Some (SObject ps) | Some (SOneof ps) => hm_props e (4 * pval_depth (VMsg m) + 4) ps m
+  | _ => true
+  end.
+
